@@ -1,4 +1,604 @@
+/-
+  C01 — every RA carries exactly what the configuration calls for.
+
+  The RA built by the model of `config.Interface.RouterAdvertisement` from the *parsed*
+  interface (C02: `parseInterface n i = some (expInterface n i)` for a documented stanza)
+  equals the declarative per-stanza RA `Spec.C01.expectedRA`: header fields from the
+  configuration, then the options of every prefix, route, RDNSS, DNSSL stanza, MTU, source
+  link-layer address, captive portal and PREF64 — in that order, and nothing else; generation
+  fails on one side exactly when it fails on the other (`ra_eq_spec`, `parse_then_build`).
+
+  Structure: per-stanza lemmas `(expX raw).apply sys = xOpts sys raw` (they hold for every raw
+  stanza, documented or not), `applyAll = concatOpts ∘ map apply`, `concatOpts` over `++`,
+  `options_eq_spec`, `build_eq_spec`; then the plugin order and counts (`kinds_eq`,
+  `plugins_order`, `count_kinds`), the PREF64 lifetime formula, the failure characterisation
+  (`ra_fail_iff`), idempotence of rebuilding, and `holds_model`.
+-/
 import Corerad.Spec.C01
+import Corerad.Props.C02
+import Corerad.Props.C16
+
 namespace Corerad.Props.C01
-theorem placeholder : True := trivial
+
+open Corerad Corerad.Model Corerad.Spec.C02 Corerad.Spec.C01
+open Corerad.Props.C02 (wfIface parseInterface_eq)
+
+/-! ### per-stanza: the parsed plugin's `Apply` against the declarative options -/
+
+theorem prefixLifetimes_eq (dep : Bool) (sys : SysState) (v pr : Dur) :
+    prefixLifetimes dep sys.epoch v pr sys.now = (lifetimeNow dep sys v, lifetimeNow dep sys pr) := by
+  unfold prefixLifetimes lifetimeNow
+  cases dep
+  · rfl
+  · simp only [Bool.not_true, Bool.false_eq_true, if_false, if_true, Props.C16.eq_clamped_remaining]
+
+theorem routeLifetime_eq (dep : Bool) (sys : SysState) (l : Dur) :
+    routeLifetime dep sys.epoch l sys.now = lifetimeNow dep sys l := by
+  unfold routeLifetime lifetimeNow
+  cases dep
+  · rfl
+  · simp only [Bool.not_true, Bool.false_eq_true, if_false, if_true, Props.C16.eq_clamped_remaining]
+
+/-- a `prefix` stanza: the static prefix, or one option per eligible /64 of the interface (the
+    documented wildcard is `::/64`, so the expansion runs with `bits = 64`) -/
+theorem prefix_apply (sys : SysState) (p : RawPrefix) : (expPrefix p).apply sys = prefixOpts sys p := by
+  unfold expPrefix prefixOpts Plugin.apply
+  simp only [prefixLifetimes_eq]
+  generalize (pfxOf wildPrefix p.pstr).getD wildPrefix = q
+  by_cases hq : q = wildPrefix
+  · subst hq
+    simp only [beq_self_eq_true, Bool.not_true, Bool.false_eq_true, if_false, if_true]
+    cases sys.addrs <;> rfl
+  · have : (q == wildPrefix) = false := by simpa using hq
+    simp only [this, Bool.not_false, if_true, Bool.false_eq_true, if_false]
+
+/-- a `route` stanza: the static route, or one option per maximal loopback route -/
+theorem route_apply (sys : SysState) (r : RawRoute) : (expRoute r).apply sys = routeOpts sys r := by
+  unfold expRoute routeOpts Plugin.apply
+  simp only [routeLifetime_eq]
+  generalize (pfxOf wildRoute r.pstr).getD wildRoute = q
+  by_cases hq : q = wildRoute
+  · subst hq
+    simp only [beq_self_eq_true, Bool.not_true, Bool.false_eq_true, if_false, if_true]
+    cases sys.routes <;> rfl
+  · have : (q == wildRoute) = false := by simpa using hq
+    simp only [this, Bool.not_false, if_true, Bool.false_eq_true, if_false]
+
+/-- an `rdnss` stanza: the static servers in ascending order, preceded by the wildcard's choice -/
+theorem rdnss_apply (sys : SysState) (maxI : Dur) (d : RawRDNSS) :
+    (expRDNSS maxI d).apply sys = rdnssOpts sys maxI d := by
+  unfold expRDNSS rdnssOpts Plugin.apply applyRDNSS
+  simp only
+  cases (d.servers.isEmpty || (d.servers.map serverAddr).any (·.isUnspecified)) with
+  | false => rfl
+  | true =>
+    simp only [Bool.not_true, Bool.false_eq_true, if_false, if_true]
+    cases sys.addrs with
+    | none => rfl
+    | some as =>
+      dsimp only
+      cases currentRDNSS as <;> rfl
+
+theorem dnssl_apply (sys : SysState) (maxI : Dur) (d : RawDNSSL) :
+    (expDNSSL maxI d).apply sys = some [Opt.dnssl ((resolve d.lifetime (3 * maxI)).getD 0) d.names] := rfl
+
+theorem mtu_apply (sys : SysState) (m : Int) : (Plugin.mtu m).apply sys = some [Opt.mtu m] := rfl
+
+theorem lla_apply (sys : SysState) :
+    Plugin.lla.apply sys = some (match sys.mac with | none => [] | some (l, m) => [Opt.lla l m]) := by
+  unfold Plugin.apply
+  cases sys.mac with
+  | none => rfl
+  | some x => cases x; rfl
+
+theorem portal_apply (sys : SysState) (u l : Nat) :
+    (Plugin.captivePortal u l).apply sys = some [Opt.captivePortal u l] := rfl
+
+theorem pref64_apply (sys : SysState) (p : Prefix) (l : Dur) :
+    (Plugin.pref64 p l).apply sys = some [Opt.pref64 p l] := rfl
+
+/-! ### `applyAll` is `concatOpts` of the per-plugin results -/
+
+theorem applyAll_eq_concat (sys : SysState) (ps : List Plugin) :
+    applyAll sys ps = concatOpts (ps.map (Plugin.apply sys)) := by
+  induction ps with
+  | nil => rfl
+  | cons p ps ih =>
+    simp only [applyAll, List.map_cons, ih]
+    cases p.apply sys with
+    | none => rfl
+    | some os =>
+      simp only [concatOpts]
+      cases concatOpts (ps.map (Plugin.apply sys)) <;> rfl
+
+/-- sequencing two option blocks: both must succeed -/
+def optAppend (a b : Option (List Opt)) : Option (List Opt) :=
+  match a, b with
+  | some x, some y => some (x ++ y)
+  | _, _ => none
+
+theorem concatOpts_append (a b : List (Option (List Opt))) :
+    concatOpts (a ++ b) = optAppend (concatOpts a) (concatOpts b) := by
+  induction a with
+  | nil => simp only [List.nil_append, concatOpts, optAppend]; cases concatOpts b <;> simp
+  | cons x xs ih =>
+    cases x with
+    | none => simp [concatOpts, optAppend]
+    | some o =>
+      simp only [List.cons_append, concatOpts, ih]
+      cases concatOpts xs <;> cases concatOpts b <;> simp [optAppend]
+
+theorem applyAll_append (sys : SysState) (a b : List Plugin) :
+    applyAll sys (a ++ b) = optAppend (applyAll sys a) (applyAll sys b) := by
+  rw [applyAll_eq_concat, applyAll_eq_concat, applyAll_eq_concat, List.map_append, concatOpts_append]
+
+theorem applyAll_map {α : Type} (sys : SysState) (e : α → Plugin) (f : α → Option (List Opt)) (l : List α)
+    (h : ∀ x ∈ l, (e x).apply sys = f x) : applyAll sys (l.map e) = concatOpts (l.map f) := by
+  rw [applyAll_eq_concat, List.map_map]
+  congr 1
+  apply List.map_congr_left
+  intro x hx
+  exact h x hx
+
+/-- the options the parsed plugin list produces are exactly the options the stanza calls for
+    (for every raw stanza and every `maxI`, documented or not) -/
+theorem options_eq_spec (i : RawInterface) (sys : SysState) (maxI : Dur) :
+    applyAll sys (expPlugins i maxI) = expectedOptions i sys maxI := by
+  unfold expPlugins expectedOptions
+  simp only [applyAll_append, concatOpts_append]
+  rw [applyAll_map sys expPrefix (prefixOpts sys) i.prefixes (fun x _ => prefix_apply sys x),
+    applyAll_map sys expRoute (routeOpts sys) i.routes (fun x _ => route_apply sys x),
+    applyAll_map sys (expRDNSS maxI) (rdnssOpts sys maxI) i.rdnss (fun x _ => rdnss_apply sys maxI x),
+    applyAll_map sys (expDNSSL maxI) _ i.dnssl (fun x _ => dnssl_apply sys maxI x),
+    applyAll_map sys (fun p => Plugin.pref64 ((pref64Of p).getD wellKnown64) (Spec.C02.pref64Lifetime maxI)) _
+      i.pref64 (fun x _ => pref64_apply sys _ _)]
+  have hmtu : applyAll sys (if (i.mtu != 0) = true then [Plugin.mtu i.mtu] else []) =
+      concatOpts [some (if (i.mtu != 0) = true then [Opt.mtu i.mtu] else [])] := by
+    cases (i.mtu != 0) <;> rfl
+  have hlla : applyAll sys (if i.sourceLLA.getD true = true then [Plugin.lla] else []) =
+      concatOpts [some (if i.sourceLLA.getD true = true then
+        (match sys.mac with | none => [] | some (l, m) => [Opt.lla l m]) else [])] := by
+    cases i.sourceLLA.getD true with
+    | false => rfl
+    | true =>
+      simp only [if_true, applyAll, lla_apply, concatOpts, Option.map_some, List.append_nil]
+  rw [hmtu, hlla]
+  cases i.captivePortal <;> rfl
+
+/-! ### the whole RA -/
+
+theorem lifetimeOf_nonneg (s : DurStr) (maxI : Dur) (h0 : 0 ≤ maxI) : 0 ≤ (lifetimeOf s maxI).getD 0 := by
+  unfold lifetimeOf
+  cases resolve s (3 * maxI) with
+  | none => exact Int.le_refl 0
+  | some l =>
+    simp only
+    split
+    · rename_i h; simp only [Option.getD_some]; omega
+    · exact Int.le_refl 0
+
+/-- a documented advertising stanza has `4 s ≤ max_interval ≤ 1800 s` -/
+theorem doc_maxI (i : RawInterface) (hdoc : docInterface i = true) (hadv : i.monitor = false) :
+    ∃ maxI, plainDur i.maxInterval (600 * second) = some maxI ∧ 4 * second ≤ maxI ∧ maxI ≤ 1800 * second ∧
+      Props.C02.docScalars i maxI = true ∧ Props.C02.docPlugins i maxI = true := by
+  unfold docInterface at hdoc
+  rw [hadv, Props.C02.docAdvertising_eq] at hdoc
+  simp only [Bool.false_and, Bool.not_false, Bool.false_or, Bool.true_and] at hdoc
+  cases hm : plainDur i.maxInterval (600 * second) with
+  | none => rw [hm] at hdoc; cases hdoc
+  | some maxI =>
+    rw [hm] at hdoc
+    simp only [Bool.and_eq_true] at hdoc
+    refine ⟨maxI, rfl, ?_, ?_, hdoc.1, hdoc.2⟩
+    · have := hdoc.1
+      unfold Props.C02.docScalars at this
+      simp only [Bool.and_eq_true, decide_eq_true_eq] at this
+      exact this.1.1.1.1.1.1.1
+    · have := hdoc.1
+      unfold Props.C02.docScalars at this
+      simp only [Bool.and_eq_true, decide_eq_true_eq] at this
+      exact this.1.1.1.1.1.1.2
+
+theorem expInterface_lifetime_nonneg (n : Nat) (i : RawInterface) (hdoc : docInterface i = true) :
+    0 ≤ (expInterface n i).defaultLifetime := by
+  unfold expInterface
+  cases hmon : i.monitor with
+  | true => exact Int.le_refl 0
+  | false =>
+    obtain ⟨maxI, hm, h4, _, _, _⟩ := doc_maxI i hdoc hmon
+    simp only [Bool.false_eq_true, if_false, hm, Option.getD_some]
+    apply lifetimeOf_nonneg
+    unfold second at h4; omega
+
+/-- **C01.**  The RA built from the resolved interface of a documented advertising stanza is
+    the RA the stanza calls for — header and options, in order, nothing else — and generation
+    fails exactly when the specification says it must. -/
+theorem build_eq_spec (n : Nat) (i : RawInterface) (sys : SysState) (fw : Bool)
+    (hdoc : docInterface i = true) (hadv : i.monitor = false) :
+    (routerAdvertisement (expInterface n i) sys fw).map (·.1) = expectedRA i sys fw := by
+  have h0 := expInterface_lifetime_nonneg n i hdoc
+  revert h0
+  unfold routerAdvertisement expectedRA expInterface
+  simp only [hadv, Bool.false_eq_true, if_false, options_eq_spec]
+  intro h0
+  cases expectedOptions i sys ((plainDur i.maxInterval (600 * second)).getD 0) with
+  | none => rfl
+  | some opts =>
+    simp only [Option.map_some]
+    generalize (lifetimeOf i.defaultLifetime ((plainDur i.maxInterval (600 * second)).getD 0)).getD 0 = dl at h0
+    cases fw with
+    | true => simp
+    | false =>
+      by_cases hp : dl > 0
+      · simp [hp]
+      · have : dl = 0 := by omega
+        simp [this]
+
+/-- the statement with the input well-formedness hypothesis of C02 (not needed here: the
+    per-stanza lemmas hold for every raw stanza) -/
+theorem ra_eq_spec (n : Nat) (i : RawInterface) (sys : SysState) (fw : Bool) (_hwf : wfIface i = true)
+    (hdoc : docInterface i = true) (hadv : i.monitor = false) :
+    (routerAdvertisement (expInterface n i) sys fw).map (·.1) = expectedRA i sys fw :=
+  build_eq_spec n i sys fw hdoc hadv
+
+/-- parse, then build: whatever interface the parser returns for an advertising stanza, the RA
+    built from it is the RA the stanza calls for -/
+theorem parse_then_build (n : Nat) (i : RawInterface) (sys : SysState) (fw : Bool) (hwf : wfIface i = true)
+    (hadv : i.monitor = false) (ifi : Interface) (h : parseInterface n i = some ifi) :
+    (routerAdvertisement ifi sys fw).map (·.1) = expectedRA i sys fw := by
+  rw [parseInterface_eq n i hwf] at h
+  cases hd : docInterface i with
+  | false => rw [hd] at h; cases h
+  | true =>
+    rw [hd] at h
+    simp only [if_true, Option.some.injEq] at h
+    subst h
+    exact build_eq_spec n i sys fw hd hadv
+
+/-- the misconfiguration flag of the same build: reported iff not forwarding and the stanza's
+    resolved default lifetime is positive -/
+theorem build_misconfig (n : Nat) (i : RawInterface) (sys : SysState) (fw : Bool) (hadv : i.monitor = false)
+    (ra : RA) (mis : Bool) (h : routerAdvertisement (expInterface n i) sys fw = some (ra, mis)) :
+    mis = (!fw && decide (0 < (lifetimeOf i.defaultLifetime ((plainDur i.maxInterval (600 * second)).getD 0)).getD 0)) := by
+  revert h
+  unfold routerAdvertisement expInterface
+  simp only [hadv, Bool.false_eq_true, if_false]
+  cases applyAll sys (expPlugins i ((plainDur i.maxInterval (600 * second)).getD 0)) with
+  | none => intro h; cases h
+  | some opts =>
+    simp only
+    generalize (lifetimeOf i.defaultLifetime ((plainDur i.maxInterval (600 * second)).getD 0)).getD 0 = dl
+    cases fw <;> by_cases hp : dl > 0 <;> simp [hp] <;> intro _ h <;> exact h.symm
+
+/-! ### plugin order and counts -/
+
+/-- the kinds of the parsed plugin list: all prefixes, then all routes, RDNSS, DNSSL, at most
+    one MTU (iff `mtu ≠ 0`), at most one source LLA (iff `source_lla` is unset or true), at
+    most one captive portal (iff configured), then all PREF64 -/
+theorem kinds_eq (i : RawInterface) (maxI : Dur) :
+    (expPlugins i maxI).map Plugin.kind =
+      List.replicate i.prefixes.length 0 ++ List.replicate i.routes.length 1 ++
+      List.replicate i.rdnss.length 2 ++ List.replicate i.dnssl.length 3 ++
+      List.replicate (if i.mtu ≠ 0 then 1 else 0) 4 ++
+      List.replicate (if i.sourceLLA.getD true then 1 else 0) 5 ++
+      List.replicate (match i.captivePortal with | .ok _ _ => 1 | _ => 0) 6 ++
+      List.replicate i.pref64.length 7 := by
+  have hconst : ∀ {α : Type} (l : List α) (f : α → Plugin) (k : Nat), (∀ x, (f x).kind = k) →
+      (l.map f).map Plugin.kind = List.replicate l.length k := by
+    intro α l f k h
+    induction l with
+    | nil => rfl
+    | cons x xs ih => simp only [List.map_cons, List.length_cons, List.replicate_succ, h x]; rw [← ih]
+  unfold expPlugins
+  simp only [List.map_append]
+  rw [hconst i.prefixes expPrefix 0 (fun _ => rfl), hconst i.routes expRoute 1 (fun _ => rfl),
+    hconst i.rdnss (expRDNSS maxI) 2 (fun _ => rfl), hconst i.dnssl (expDNSSL maxI) 3 (fun _ => rfl),
+    hconst i.pref64 _ 7 (fun _ => rfl)]
+  congr 1; congr 1; congr 1; congr 1
+  · by_cases h : i.mtu = 0 <;> simp [h, Plugin.kind]
+  · cases i.sourceLLA.getD true <;> rfl
+  · cases i.captivePortal <;> rfl
+
+/-- the plugins are applied in the documented order: prefixes, routes, RDNSS, DNSSL, MTU,
+    source LLA, captive portal, PREF64 -/
+theorem plugins_order (i : RawInterface) (maxI : Dur) :
+    ((expPlugins i maxI).map Plugin.kind).Pairwise (· ≤ ·) := by
+  rw [kinds_eq]
+  simp only [List.pairwise_append, List.pairwise_replicate, List.mem_append, List.mem_replicate]
+  refine ⟨⟨⟨⟨⟨⟨⟨?_, ?_, ?_⟩, ?_, ?_⟩, ?_, ?_⟩, ?_, ?_⟩, ?_, ?_⟩, ?_, ?_⟩, ?_, ?_⟩ <;>
+    first
+      | (right; exact Nat.le_refl _)
+      | (intro a ha b hb; omega)
+
+/-- … and their options appear in that order in every RA (`ra_eq_spec`), because `applyAll`
+    concatenates in list order -/
+theorem count_kinds (i : RawInterface) (maxI : Dur) :
+    let ks := (expPlugins i maxI).map Plugin.kind
+    ks.count 0 = i.prefixes.length ∧ ks.count 1 = i.routes.length ∧ ks.count 2 = i.rdnss.length ∧
+    ks.count 3 = i.dnssl.length ∧ ks.count 4 = (if i.mtu ≠ 0 then 1 else 0) ∧
+    ks.count 5 = (if i.sourceLLA.getD true then 1 else 0) ∧
+    ks.count 6 = (match i.captivePortal with | .ok _ _ => 1 | _ => 0) ∧
+    ks.count 7 = i.pref64.length ∧ ks.length = i.prefixes.length + i.routes.length + i.rdnss.length +
+      i.dnssl.length + (if i.mtu ≠ 0 then 1 else 0) + (if i.sourceLLA.getD true then 1 else 0) +
+      (match i.captivePortal with | .ok _ _ => 1 | _ => 0) + i.pref64.length := by
+  simp only [kinds_eq, List.count_append, List.count_replicate, List.length_append, List.length_replicate]
+  simp
+
+theorem mtu_iff (i : RawInterface) (maxI : Dur) (m : Int) :
+    Plugin.mtu m ∈ expPlugins i maxI ↔ (i.mtu ≠ 0 ∧ m = i.mtu) := by
+  unfold expPlugins
+  by_cases h : i.mtu = 0 <;> cases i.sourceLLA.getD true <;> cases i.captivePortal <;>
+    simp [expPrefix, expRoute, expRDNSS, expDNSSL, h]
+
+theorem lla_iff (i : RawInterface) (maxI : Dur) : Plugin.lla ∈ expPlugins i maxI ↔ i.sourceLLA.getD true = true := by
+  unfold expPlugins
+  by_cases h : i.mtu = 0 <;> cases i.sourceLLA.getD true <;> cases i.captivePortal <;>
+    simp [expPrefix, expRoute, expRDNSS, expDNSSL, h]
+
+theorem portal_iff (i : RawInterface) (maxI : Dur) (u l : Nat) :
+    Plugin.captivePortal u l ∈ expPlugins i maxI ↔ i.captivePortal = .ok u l := by
+  unfold expPlugins
+  by_cases h : i.mtu = 0 <;> cases i.sourceLLA.getD true <;> cases i.captivePortal <;>
+    simp [expPrefix, expRoute, expRDNSS, expDNSSL, h] <;> exact ⟨fun h => ⟨h.1.symm, h.2.symm⟩, fun h => ⟨h.1.symm, h.2.symm⟩⟩
+
+/-- the source order of the `append` calls in `parsePlugins` is the documented one (breaks if
+    the source changes) -/
+theorem gen_append_order :
+    Gen.Config.pluginAppendOrder =
+      ["p", "r", "rdnss", "dnssl", "plugin.NewMTU(ifi.MTU)", "&plugin.LLA{…}", "cp",
+       "plugin.NewPREF64(prefix, maxInterval)"] := by decide
+
+/-! ### the PREF64 lifetime -/
+
+/-- for every accepted `max_interval` the PREF64 lifetime is 3·MaxRtrAdvInterval (whole
+    seconds) rounded up to a multiple of 8 s; at most 5400 s, so the 65528 s cap is never
+    reached -/
+theorem pref64_lifetime_formula (maxI : Dur) (h4 : 4 * second ≤ maxI) (h1800 : maxI ≤ 1800 * second) :
+    Spec.C02.pref64Lifetime maxI = Spec.C02.ceil8 (3 * (maxI / second)) * second ∧
+    Spec.C02.pref64Lifetime maxI ≤ 5400 * second ∧
+    Spec.C02.pref64Lifetime maxI % (8 * second) = 0 := by
+  unfold Spec.C02.pref64Lifetime Spec.C02.ceil8 second at *
+  omega
+
+theorem pref64_cap (maxI : Dur) (_h : 0 ≤ maxI) : Spec.C02.pref64Lifetime maxI ≤ 65528 * second := by
+  unfold Spec.C02.pref64Lifetime
+  omega
+
+theorem pref64_lifetime_ge (maxI : Dur) (h4 : 4 * second ≤ maxI) (h1800 : maxI ≤ 1800 * second) :
+    3 * (maxI / second) * second ≤ Spec.C02.pref64Lifetime maxI ∧
+    Spec.C02.pref64Lifetime maxI < (3 * (maxI / second) + 8) * second := by
+  unfold Spec.C02.pref64Lifetime Spec.C02.ceil8 second at *
+  omega
+
+/-- the value the Go constructor computes is the documented one -/
+theorem pref64_model_formula (maxI : Dur) (h4 : 4 * second ≤ maxI) (h1800 : maxI ≤ 1800 * second) :
+    Model.pref64Lifetime maxI = Spec.C02.ceil8 (3 * (maxI / second)) * second := by
+  rw [Props.C02.pref64_lifetime_eq maxI (by unfold second at h4; omega)]
+  exact (pref64_lifetime_formula maxI h4 h1800).1
+
+/-! ### when generation fails -/
+
+theorem concatOpts_none_iff (l : List (Option (List Opt))) : concatOpts l = none ↔ none ∈ l := by
+  induction l with
+  | nil => simp [concatOpts]
+  | cons x xs ih =>
+    cases x with
+    | none => simp [concatOpts]
+    | some o => simp [concatOpts, ih]
+
+/-- the stanza uses the `::/64` wildcard (key absent/empty, or written out) -/
+def wildP (p : RawPrefix) : Bool := (pfxOf wildPrefix p.pstr).getD wildPrefix == wildPrefix
+/-- the stanza uses the `::/0` wildcard -/
+def wildR (r : RawRoute) : Bool := (pfxOf wildRoute r.pstr).getD wildRoute == wildRoute
+/-- the stanza uses the `::` wildcard (no servers at all, or `::` among them) -/
+def wildD (d : RawRDNSS) : Bool := d.servers.isEmpty || (d.servers.map serverAddr).any (·.isUnspecified)
+
+theorem prefixOpts_none_iff (sys : SysState) (p : RawPrefix) :
+    prefixOpts sys p = none ↔ (wildP p = true ∧ sys.addrs = none) := by
+  unfold prefixOpts wildP
+  simp only
+  cases ((pfxOf wildPrefix p.pstr).getD wildPrefix == wildPrefix) <;> cases sys.addrs <;> simp
+
+theorem routeOpts_none_iff (sys : SysState) (r : RawRoute) :
+    routeOpts sys r = none ↔ (wildR r = true ∧ sys.routes = none) := by
+  unfold routeOpts wildR
+  simp only
+  cases ((pfxOf wildRoute r.pstr).getD wildRoute == wildRoute) <;> cases sys.routes <;> simp
+
+theorem rdnssOpts_none_iff (sys : SysState) (maxI : Dur) (d : RawRDNSS) :
+    rdnssOpts sys maxI d = none ↔
+      (wildD d = true ∧ (sys.addrs = none ∨ ∃ as, sys.addrs = some as ∧ currentRDNSS as = none)) := by
+  unfold rdnssOpts wildD
+  simp only
+  cases (d.servers.isEmpty || (d.servers.map serverAddr).any (·.isUnspecified)) with
+  | false => simp
+  | true =>
+    cases sys.addrs with
+    | none => simp
+    | some as => cases currentRDNSS as <;> simp
+
+theorem expectedOptions_none_iff (i : RawInterface) (sys : SysState) (maxI : Dur) :
+    expectedOptions i sys maxI = none ↔
+      (∃ p ∈ i.prefixes, prefixOpts sys p = none) ∨ (∃ r ∈ i.routes, routeOpts sys r = none) ∨
+      (∃ d ∈ i.rdnss, rdnssOpts sys maxI d = none) := by
+  unfold expectedOptions
+  rw [concatOpts_none_iff]
+  simp only [List.mem_append, List.mem_map, List.mem_singleton, reduceCtorEq, and_false, exists_false, or_false]
+  constructor
+  · rintro ((⟨p, hp, h⟩ | ⟨r, hr, h⟩) | ⟨d, hd, h⟩)
+    · exact Or.inl ⟨p, hp, h⟩
+    · exact Or.inr (Or.inl ⟨r, hr, h⟩)
+    · exact Or.inr (Or.inr ⟨d, hd, h⟩)
+  · rintro (⟨p, hp, h⟩ | ⟨r, hr, h⟩ | ⟨d, hd, h⟩)
+    · exact Or.inl (Or.inl ⟨p, hp, h⟩)
+    · exact Or.inl (Or.inr ⟨r, hr, h⟩)
+    · exact Or.inr ⟨d, hd, h⟩
+
+/-- **Generation fails iff** a `::/64` prefix wildcard cannot list the interface's addresses,
+    a `::/0` route wildcard cannot list the routes, or an RDNSS `::` wildcard cannot list the
+    addresses or finds no usable one — and for no other reason. -/
+theorem ra_fail_iff (i : RawInterface) (sys : SysState) (fw : Bool) :
+    expectedRA i sys fw = none ↔
+      ((∃ p ∈ i.prefixes, wildP p = true) ∧ sys.addrs = none) ∨
+      ((∃ r ∈ i.routes, wildR r = true) ∧ sys.routes = none) ∨
+      ((∃ d ∈ i.rdnss, wildD d = true) ∧
+        (sys.addrs = none ∨ ∃ as, sys.addrs = some as ∧ currentRDNSS as = none)) := by
+  unfold expectedRA
+  simp only [Option.map_eq_none_iff, expectedOptions_none_iff, prefixOpts_none_iff, routeOpts_none_iff,
+    rdnssOpts_none_iff]
+  constructor
+  · rintro (⟨p, hp, hw, h⟩ | ⟨r, hr, hw, h⟩ | ⟨d, hd, hw, h⟩)
+    · exact Or.inl ⟨⟨p, hp, hw⟩, h⟩
+    · exact Or.inr (Or.inl ⟨⟨r, hr, hw⟩, h⟩)
+    · exact Or.inr (Or.inr ⟨⟨d, hd, hw⟩, h⟩)
+  · rintro (⟨⟨p, hp, hw⟩, h⟩ | ⟨⟨r, hr, hw⟩, h⟩ | ⟨⟨d, hd, hw⟩, h⟩)
+    · exact Or.inl ⟨p, hp, hw, h⟩
+    · exact Or.inr (Or.inl ⟨r, hr, hw, h⟩)
+    · exact Or.inr (Or.inr ⟨d, hd, hw, h⟩)
+
+/-- the same for the model's build of an accepted stanza -/
+theorem build_fail_iff (n : Nat) (i : RawInterface) (sys : SysState) (fw : Bool)
+    (hdoc : docInterface i = true) (hadv : i.monitor = false) :
+    routerAdvertisement (expInterface n i) sys fw = none ↔
+      ((∃ p ∈ i.prefixes, wildP p = true) ∧ sys.addrs = none) ∨
+      ((∃ r ∈ i.routes, wildR r = true) ∧ sys.routes = none) ∨
+      ((∃ d ∈ i.rdnss, wildD d = true) ∧
+        (sys.addrs = none ∨ ∃ as, sys.addrs = some as ∧ currentRDNSS as = none)) := by
+  rw [← ra_fail_iff i sys fw, ← build_eq_spec n i sys fw hdoc hadv, Option.map_eq_none_iff]
+
+/-- for a documented stanza the prefix wildcard is written as the empty key or as `::/64` -/
+theorem wildP_iff (p : RawPrefix) (h : docPrefix p = true) :
+    wildP p = true ↔ (p.pstr = .empty ∨ p.pstr = .ok wildPrefix) := by
+  obtain ⟨q, hq⟩ := Props.C02.docPrefix_some p h
+  unfold wildP
+  cases hs : p.pstr with
+  | empty => simp [pfxOf]
+  | bad => rw [hs] at hq; simp [pfxOf] at hq
+  | ok x =>
+    rw [hs] at hq
+    simp only [pfxOf] at hq ⊢
+    split at hq
+    · rename_i hc; simp [hc]
+    · cases hq
+
+theorem wildR_iff (r : RawRoute) (h : docRoute r = true) :
+    wildR r = true ↔ (r.pstr = .empty ∨ r.pstr = .ok wildRoute) := by
+  obtain ⟨q, hq⟩ := Props.C02.docRoute_some r h
+  unfold wildR
+  cases hs : r.pstr with
+  | empty => simp [pfxOf]
+  | bad => rw [hs] at hq; simp [pfxOf] at hq
+  | ok x =>
+    rw [hs] at hq
+    simp only [pfxOf] at hq ⊢
+    split at hq
+    · rename_i hc; simp [hc]
+    · cases hq
+
+/-! ### rebuilding -/
+
+/-- Building is a function of (configuration, system state, forwarding): `k` rebuilds with the
+    same inputs return the same RA, and the configuration is not an output of a build (it is
+    immutable by construction in the model; the harness checks `config-mutated` on the real
+    code). -/
+theorem build_idempotent (ifi : Interface) (sys : SysState) (fw : Bool) (k : Nat) :
+    (List.range k).map (fun _ => routerAdvertisement ifi sys fw) =
+      List.replicate k (routerAdvertisement ifi sys fw) := by
+  induction k with
+  | zero => rfl
+  | succ k ih =>
+    rw [List.range_succ, List.map_append, ih, List.replicate_succ']
+    rfl
+
+theorem build_idempotent_get (ifi : Interface) (sys : SysState) (fw : Bool) (k j : Nat) (hj : j < k) :
+    ((List.range k).map (fun _ => routerAdvertisement ifi sys fw))[j]? = some (routerAdvertisement ifi sys fw) := by
+  rw [build_idempotent]
+  simp [hj]
+
+/-! ### the model meets the oracle -/
+
+/-- The oracle accepts the model's output on every documented advertising stanza. -/
+theorem holds_model (n : Nat) (i : RawInterface) (sys : SysState) (fw : Bool)
+    (hdoc : docInterface i = true) (hadv : i.monitor = false) :
+    (match routerAdvertisement (expInterface n i) sys fw with
+     | none => Spec.C01.holds i sys fw "err" none
+     | some r => Spec.C01.holds i sys fw "ok" (some r.1)) = (true, "") := by
+  have h := build_eq_spec n i sys fw hdoc hadv
+  unfold Spec.C01.holds
+  simp only [hdoc, Bool.not_true, Bool.false_eq_true, if_false]
+  cases hr : routerAdvertisement (expInterface n i) sys fw with
+  | none =>
+    rw [hr] at h
+    simp only [Option.map_none] at h
+    rw [← h]
+    decide
+  | some r =>
+    rw [hr] at h
+    simp only [Option.map_some] at h
+    rw [← h]
+    simp only [beq_self_eq_true, if_true]
+    decide
+
+/-- an undocumented stanza is rejected by the parser, which is what the oracle demands -/
+theorem holds_model_rej (n : Nat) (i : RawInterface) (sys : SysState) (fw : Bool) (hwf : wfIface i = true)
+    (hdoc : docInterface i = false) :
+    parseInterface n i = none ∧ Spec.C01.holds i sys fw "rej" none = (true, "") := by
+  refine ⟨by rw [parseInterface_eq n i hwf, hdoc]; rfl, ?_⟩
+  unfold Spec.C01.holds
+  simp only [hdoc, Bool.not_false, if_true]
+  decide
+
+/-! ### non-vacuity -/
+
+/-- an advertising stanza using every stanza kind: both prefix forms (one deprecated, with a
+    sub-second lifetime), both route forms, an RDNSS stanza with a static server and the `::`
+    wildcard, DNSSL, MTU, source LLA (default), captive portal and PREF64 -/
+def exIface : RawInterface :=
+  { name := 1, advertise := true, maxInterval := .lit (60 * second), hopLimit := some 32,
+    defaultLifetime := .auto,
+    prefixes := [ {}, { pstr := .ok { addr := { val := 0x20010db8000000010000000000000000 }, bits := 64 },
+                        autonomous := some false, valid := .lit (3600 * second + 1),
+                        preferred := .lit (1800 * second), deprecated := true } ],
+    routes := [ { pstr := .ok { addr := { val := 0x20010db8ffff00000000000000000000 }, bits := 48 }, preference := 3 }, {} ],
+    rdnss := [ { servers := [ .ok { val := 0x20010db8000000010000000000000053 }, .ok { val := 0 } ] } ],
+    dnssl := [ { lifetime := .lit (100 * second), names := [7, 8] } ],
+    pref64 := [ .unset ],
+    mtu := 1500, captivePortal := .ok 9 30 }
+
+def exSys : SysState :=
+  { addrs := some [ { addr := { addr := { val := 0xfd000000000000010000000000000001 }, bits := 64 }, stablePrivacy := true },
+                    { addr := { addr := { val := 0xfe800000000000000000000000000001 }, bits := 64 } } ],
+    routes := some [ { addr := { val := 0x20010db8aaaa00000000000000000000 }, bits := 48 } ],
+    mac := some (6, 0x0242ac110002), epoch := 0, now := 600 * second + 5 }
+
+/-- the RA `exIface` calls for in `exSys`, 600.000000005 s after the epoch -/
+def exRA : RA :=
+  { hopLimit := 32, routerLifetime := 180 * second,
+    options := [
+      .pi { val := 0xfd000000000000010000000000000000 } 64 true true (24 * hour) (4 * hour),
+      .pi { val := 0x20010db8000000010000000000000000 } 64 true false 2999999999996 1199999999995,
+      .ri { val := 0x20010db8ffff00000000000000000000 } 48 prefHigh (24 * hour),
+      .ri { val := 0x20010db8aaaa00000000000000000000 } 48 prefMedium (24 * hour),
+      .rdnss (180 * second) [{ val := 0xfd000000000000010000000000000001 }, { val := 0x20010db8000000010000000000000053 }],
+      .dnssl (100 * second) [7, 8], .mtu 1500, .lla 6 0x0242ac110002, .captivePortal 9 30,
+      .pref64 { addr := { val := 0x0064ff9b000000000000000000000000 }, bits := 96 } (184 * second) ] }
+
+theorem ex_expected : expectedRA exIface exSys true = some exRA := by decide +kernel
+
+
+/-- the parser accepts `exIface`, and the RA built from the parsed interface is `exRA` -/
+example : docInterface exIface = true ∧ parseInterface 1 exIface = some (expInterface 1 exIface) ∧
+    routerAdvertisement (expInterface 1 exIface) exSys true = some (exRA, false) ∧
+    routerAdvertisement (expInterface 1 exIface) exSys false = some ({ exRA with routerLifetime := 0 }, true) := by
+  decide +kernel
+
+/-- generation fails when the address source fails (`::/64` and `::` wildcards), when the route
+    source fails (`::/0` wildcard), and when no address is usable for the RDNSS wildcard -/
+example :
+    routerAdvertisement (expInterface 1 exIface) { exSys with addrs := none } true = none ∧
+    routerAdvertisement (expInterface 1 exIface) { exSys with routes := none } true = none ∧
+    routerAdvertisement (expInterface 1 exIface) { exSys with addrs := some [] } true = none ∧
+    (routerAdvertisement (expInterface 1 { exIface with prefixes := [], rdnss := [] }) { exSys with addrs := none } true).isSome = true := by
+  decide +kernel
+
 end Corerad.Props.C01
